@@ -205,12 +205,48 @@ Fixpoint vskel (v : vtree) : skel :=
   | _ => SK []
   end.
 
+(* the layout tree of the real view against the view tree.  A flex child WITH a flex factor is laid out
+   only when room is left for it (flex.rs: `if major_remain > 0 && flex_total > 0.0`, `if child_major_max
+   != 0`); otherwise its node stays the default one, without children, whatever is below it.  (An empty
+   flex with a spreading justification takes the whole main axis, so this happens under any constraint.)
+   Every other node is laid out: the shape is exactly `vskel`. *)
+Fixpoint skel_fits (v : vtree) (k : skel) {struct v} : bool :=
+  match v, k with
+  | VFlex _ _ children, SK ks =>
+      (fix go (cs : list fchild) (ks : list skel) {struct cs} : bool :=
+         match cs, ks with
+         | [], [] => true
+         | c :: cs', q :: ks' =>
+             (skel_fits (fst (fst (fst c))) q
+              || match snd (fst (fst c)) with
+                 | Some _ => skel_eqb q (SK [])
+                 | None => false
+                 end)
+             && go cs' ks'
+         | _, _ => false
+         end) children ks
+  | VContainer child _ _ _ _ _ _, SK [q] => skel_fits child q
+  | VTag _ child, SK [q] => skel_fits child q
+  | VFrame child _, SK [q] => skel_fits child q
+  | VRef (Some t), SK [q] => skel_fits t q
+  | VContainer _ _ _ _ _ _ _, _ | VTag _ _, _ | VFrame _ _, _ | VRef (Some _), _ => false
+  | _, SK [] => true
+  | _, _ => false
+  end.
+
 (* a content with nothing in it (shapes do not depend on the content) except a cache and a handler as
    the correspondence run installs them when asked to: uid 7 is a container around a text; the handler
    returns a text *)
 Definition content0 (with_cache : bool) : content :=
   {| cells_of := fun _ => ([], true); axis_of := fun _ => Hor; justify_of := fun _ => JStart;
-     flex_of := fun _ => None; cface_of := fun _ => face0; align_of := fun _ => AShrink;
+     (* which children have a flex factor: a positive number (flex.rs keeps finite positive factors only;
+        the sign of a float is not part of the case, so a float counts as possibly positive) *)
+     flex_of := fun v => match v with
+                         | Json.JNum (NU 0) | Json.JNum (NI _) => None
+                         | Json.JNum _ => Some 1%positive
+                         | _ => None
+                         end;
+     cface_of := fun _ => face0; align_of := fun _ => AShrink;
      margins_of := fun _ => mkM 0 0 0 0; tag_of := fun _ => 0; glyph_id := fun _ => 0;
      glyph_cells_of := fun _ => (1%nat, 3%nat);
      fallback_of := fun _ => []; image_id := fun _ => 0; ascii_color := fun _ => 0;
